@@ -424,6 +424,14 @@ def lastValue : List Hdr → Bytes → Option Bytes
 
 def usizeMax : Nat := 18446744073709551615
 
+/-- the values of all Cookie lines, in wire order, joined with "; " (`cookie_header_value`) -/
+def joinSemi : List Bytes → Option Bytes
+  | [] => none
+  | v :: vs => some (vs.foldl (fun a x => a ++ [59, 32] ++ x) v)
+
+def cookieHeader (all : List Hdr) : Option Bytes :=
+  joinSemi ((all.filter (fun h => lower h.name == ascii "cookie")).filterMap (·.value))
+
 def cookiesOfHeader : Option Bytes → List Cookie
   | some v => parseCookies v
   | none => []
@@ -433,7 +441,7 @@ def assembleReq (m u : Bytes) (ver : Ver) (all : List Hdr) (l0 : Bytes) (info : 
   let isCookie := fun (h : Hdr) => lower h.name == ascii "cookie"
   let isReferer := fun (h : Hdr) => lower h.name == ascii "referer"
   let headers := all.filter (fun h => !isCookie h && !isReferer h)
-  let cookies := if HttpLists.parseCookies then cookiesOfHeader (lastValue all (ascii "cookie")) else []
+  let cookies := if HttpLists.parseCookies then cookiesOfHeader (cookieHeader all) else []
   { method := m, uri := u, ver := ver, headers := headers, cookies := cookies,
     referer := lastValue all (ascii "referer"),
     contentLength := (firstValue headers (ascii "content-length")).bind (parseUnsigned usizeMax),
